@@ -203,7 +203,7 @@ CHECKS['C05'] = dict(
     design_ref='DESIGN.md section 4 (C05), section 8',
     note='Two halves: the loop logic (running maximum, skipping invalid candidates, ValueError iff none valid) is unbounded; that the streams '
          'are the composition rule of the statement is D/shape in the card counts: quick a thinned set up to 7 cards (Omaha up to 4+4, 3+5), '
-         'thorough every (hole, board) with at most 7 cards, Omaha up to 5+5; the hand tables themselves are C04; itertools.combinations '
+         'thorough every (hole, board) with at most 7 cards, Omaha every (hole, board) up to 5+5 with at most 30 candidate combinations; the hand tables themselves are C04; itertools.combinations '
          'trusted as documented.',
     technique='sidecar contracts + own VC generator over the real AST (abstract cards, uninterpreted validity / strength per card set) + z3')
 
